@@ -1630,6 +1630,144 @@ fn build_cases(tier: &str, seed: u64, count: Option<u64>) -> Vec<(Value, String)
     keyed.into_iter().map(|k| k.1).collect()
 }
 
+// ================================================================= control-message body parsers, called directly
+// (src/dlt/control_msgs.rs vs Crash/ControlMsgs.v: parsed structure or None, panic / no panic)
+#[derive(Clone)]
+struct GCtx { id: [u8; 4], ll: u8, ts: u8, desc: Vec<u8> }
+#[derive(Clone)]
+struct GApp { id: [u8; 4], ctxs: Vec<GCtx>, desc: Vec<u8> }
+fn gen_desc(rng: &mut Rng) -> Vec<u8> {
+    let l = rng.size(5) as usize;
+    (0..l).map(|_| *rng.pick(&[b'a', b'Z', b' ', b'\n', b'\t', b'\r', 0u8, 0x7f, 0x80, 0x81, 0xe9, 0xff])).collect()
+}
+fn gen_id(rng: &mut Rng) -> [u8; 4] {
+    *rng.pick(&[*b"APID", *b"CTID", *b"SYS\0", [0, 0, 0, 0], [0xff, 0x80, 1, 2], *b"A\0\0\0"])
+}
+fn gen_apps(rng: &mut Rng) -> Vec<GApp> {
+    let na = rng.size(3) as usize;
+    (0..na).map(|_| { let nc = rng.size(3) as usize; GApp { id: gen_id(rng), ctxs: (0..nc).map(|_| GCtx { id: gen_id(rng), ll: rng.below(256) as u8, ts: rng.below(256) as u8, desc: gen_desc(rng) }).collect(), desc: gen_desc(rng) } }).collect()
+}
+/// body of a GET_LOG_INFO response behind the status byte + the positions of its u16 count / length fields
+fn enc_log_info(status: u8, be: bool, apps: &[GApp]) -> (Vec<u8>, Vec<usize>) {
+    let (hl, hts, hd) = (status == 4 || status == 6 || status == 7, status == 5 || status == 6 || status == 7, status == 7);
+    let mut p = vec![];
+    let mut f = vec![0usize];
+    p.extend_from_slice(&u16b(apps.len() as u16, be));
+    for a in apps {
+        p.extend_from_slice(&a.id);
+        f.push(p.len());
+        p.extend_from_slice(&u16b(a.ctxs.len() as u16, be));
+        for c in &a.ctxs {
+            p.extend_from_slice(&c.id);
+            if hl { p.push(c.ll) }
+            if hts { p.push(c.ts) }
+            if hd { f.push(p.len()); p.extend_from_slice(&u16b(c.desc.len() as u16, be)); p.extend_from_slice(&c.desc); }
+        }
+        if hd { f.push(p.len()); p.extend_from_slice(&u16b(a.desc.len() as u16, be)); p.extend_from_slice(&a.desc); }
+    }
+    (p, f)
+}
+fn o_str(s: &str) -> O {
+    O::T(s.chars().map(|c| O::L(if (c as u32) < 128 { c as u128 } else { 256 })).collect())
+}
+fn o_id(c: &DltChar4) -> O {
+    O::bytes(c.as_buf())
+}
+/// the real function on the body; Err = panic text
+fn run_ctrl(func: u64, status: u8, be: bool, p: &[u8]) -> Result<O, String> {
+    use adlt::dlt::control_msgs::*;
+    let p = p.to_vec();
+    catch_loc(move || match func {
+        0 => O::T(parse_ctrl_log_info_payload(status, be, &p).iter().map(|a| O::T(vec![
+                o_id(&a.apid),
+                O::T(a.ctids.iter().map(|c| O::T(vec![o_id(&c.ctid), O::opt(c.log_level.map(|v| O::n(v as u8))), O::opt(c.trace_status.map(|v| O::n(v as u8))), O::opt(c.desc.as_deref().map(o_str))])).collect()),
+                O::opt(a.desc.as_deref().map(o_str))])).collect()),
+        1 => O::opt(parse_ctrl_sw_version_payload(be, &p).as_deref().map(o_str)),
+        2 => O::opt(parse_ctrl_unregister_context_payload(&p).map(|(a, c, m)| O::T(vec![o_id(&a), o_id(&c), o_id(&m)]))),
+        3 => O::opt(parse_ctrl_connection_info_payload(&p).map(|(s, m)| O::T(vec![O::n(s), o_id(&m)]))),
+        _ => O::opt(parse_ctrl_timezone_payload(be, &p).map(|(g, d)| O::T(vec![O::n(g as u32), O::b(d)]))),
+    })
+}
+fn push_ctrl(sink: &mut Sink, func: u64, status: u8, be: bool, p: &[u8], tag: &str) {
+    let r = run_ctrl(func, status, be, p);
+    let (obs, verdict) = match &r {
+        Ok(o) => (O::T(vec![O::L(0), o.clone()]), Verdict::Ok),
+        Err(e) => (O::T(vec![O::L(1)]), Verdict::Fail { clause: "no_panic".into(), detail: format!("control_msgs parser {} (status {}, big endian {}) on a body of {} bytes: {}", func, status, be, p.len(), e) }),
+    };
+    let nontrivial = matches!(&r, Ok(O::T(v)) if !v.is_empty());
+    let id = sink.next_id();
+    let mut tags = vec![format!("ctrl:fn{}", func), format!("ctrl:{}", tag)];
+    if func == 0 { tags.push(format!("ctrl:status{}", status)); }
+    if r.is_err() { tags.push("FAIL".into()); }
+    sink.push(Case {
+        id,
+        input_coq: format!("(CCtrl {} {} {} {})", func, status, cbool(be), cnums(p)),
+        input_json: json!({"ctrl": {"fn": func, "status": status, "be": be, "payload": p}}),
+        obs,
+        verdict,
+        classes: vec![],
+        tags,
+        nontrivial,
+        key: format!("ctrl/{}/{}/{}/{}", func, status, be, hex(p)),
+    });
+}
+fn ctrl_cases(sink: &mut Sink, tier: &str, seed: u64) {
+    let mut rng = Rng::new(seed ^ 0xC7A1);
+    let n_bodies = match tier { "quick" => 24, "search" => 60, _ => 300 };
+    for k in 0..n_bodies {
+        let status = 3 + (k % 5) as u8;
+        let be = rng.chance(1, 2);
+        let apps = gen_apps(&mut rng);
+        let (p, fields) = enc_log_info(status, be, &apps);
+        push_ctrl(sink, 0, status, be, &p, "valid");
+        // every truncation point (sampled for long bodies)
+        let cuts: Vec<usize> = if p.len() <= 48 { (0..p.len()).collect() } else { (0..24).map(|_| rng.below(p.len() as u64) as usize).collect() };
+        for c in cuts { push_ctrl(sink, 0, status, be, &p[..c], "truncated"); }
+        // count / length fields off by one or two, or extreme
+        for f in &fields {
+            for d in [-2i32, -1, 1, 2] {
+                let mut q = p.clone();
+                let v = if be { u16::from_be_bytes([q[*f], q[*f + 1]]) } else { u16::from_le_bytes([q[*f], q[*f + 1]]) };
+                let b = u16b(v.wrapping_add(d as u16), be);
+                q[*f] = b[0]; q[*f + 1] = b[1];
+                push_ctrl(sink, 0, status, be, &q, "field_off");
+            }
+            if rng.chance(1, 3) { let mut q = p.clone(); q[*f] = 0xff; q[*f + 1] = 0xff; push_ctrl(sink, 0, status, be, &q, "field_max"); }
+        }
+        // the same body read under another status / byte order, with a tail, random bytes
+        for st in [0u8, 2, 3, 4, 5, 6, 7, 8, 255] { if st != status && rng.chance(1, 2) { push_ctrl(sink, 0, st, be, &p, "other_status"); } }
+        push_ctrl(sink, 0, status, !be, &p, "other_endian");
+        let mut q = p.clone(); let l = rng.range(1, 3) as usize; q.extend(rand_bytes(&mut rng, l)); push_ctrl(sink, 0, status, be, &q, "tail");
+        let l = rng.size(24) as usize; let q = rand_bytes(&mut rng, l); push_ctrl(sink, 0, status, be, &q, "random");
+        let mut q = p.clone(); if !q.is_empty() { let i = rng.below(q.len() as u64) as usize; q[i] ^= 1 << rng.below(8); } push_ctrl(sink, 0, status, be, &q, "flip");
+    }
+    // software version: length + string
+    for _ in 0..n_bodies {
+        let be = rng.chance(1, 2);
+        let d = { let l = rng.size(12) as usize; (0..l).map(|_| *rng.pick(&[b'v', b'1', b'.', b'\n', b'\t', 0u8, 0x80, 0xff])).collect::<Vec<u8>>() };
+        let mut p = u32b(d.len() as u32, be).to_vec();
+        p.extend_from_slice(&d);
+        push_ctrl(sink, 1, 0, be, &p, "valid");
+        for c in 0..p.len() { push_ctrl(sink, 1, 0, be, &p[..c], "truncated"); }
+        for dl in [-2i64, -1, 1, 2, 0xffff_ffff, 0x1_0000_0000 - d.len() as i64 - 1] {
+            let mut q = p.clone();
+            q[..4].copy_from_slice(&u32b((d.len() as i64 + dl) as u32, be));
+            push_ctrl(sink, 1, 0, be, &q, "field_off");
+        }
+        push_ctrl(sink, 1, 0, !be, &p, "other_endian");
+        let mut q = p.clone(); q.push(7); push_ctrl(sink, 1, 0, be, &q, "tail");
+    }
+    // fixed size bodies: every length around the expected one
+    for func in [2u64, 3, 4] {
+        for l in 0..15usize {
+            for _ in 0..(if tier == "quick" { 1 } else { 4 }) {
+                let q = rand_bytes(&mut rng, l);
+                push_ctrl(sink, func, 0, rng.chance(1, 2), &q, "fixed_size");
+            }
+        }
+    }
+}
+
 // ================================================================= Coq rendering, oracle, main
 fn coq_case(r: &Value, bytes: &[u8], o: &Value) -> String {
     let model = r["model"].as_bool().unwrap_or(false);
@@ -1675,6 +1813,12 @@ fn main() {
     let mut sink = Sink::new("C03", &a.out);
     let cases: Vec<(Value, String)> = if let Some(p) = &a.replay {
         let v = read_replay(p);
+        if let Some(c) = v["case"].get("ctrl") {
+            let p: Vec<u8> = c["payload"].as_array().map(|a| a.iter().map(|x| x.as_u64().unwrap_or(0) as u8).collect()).unwrap_or_default();
+            push_ctrl(&mut sink, c["fn"].as_u64().unwrap_or(0), c["status"].as_u64().unwrap_or(0) as u8, c["be"].as_bool().unwrap_or(false), &p, "replay");
+            sink.finish();
+            return;
+        }
         vec![(v["case"].clone(), "replay".to_string())]
     } else {
         build_cases(&a.tier, a.seed, a.count)
@@ -1736,6 +1880,9 @@ fn main() {
         let obs = obs_of(&coq, ok, o);
         let key = format!("{:x}", { let mut h = 0xcbf29ce484222325u64; for b in &bytes { h = (h ^ *b as u64).wrapping_mul(0x100000001b3); } h ^ ((bytes.len() as u64) << 48) ^ ext.len() as u64 ^ (r["ref"].as_bool().unwrap_or(false) as u64) });
         sink.push(Case { id: i as u64, input_coq: coq, input_json: r.clone(), obs, verdict, classes: vec![], tags, nontrivial: nm >= 2, key });
+    }
+    if a.replay.is_none() {
+        ctrl_cases(&mut sink, &a.tier, a.seed);
     }
     sink.extra_stats.insert("worker_wall_s".into(), json!(wall));
     sink.extra_stats.insert("messages_through_chain".into(), json!(tot_msgs));
